@@ -1176,5 +1176,270 @@ theorem hm2mRun_sim {st st' : HState α} (cs : List (M2MCmd α)) (hs : HSep st) 
       simp only [m2mRun, this]
       exact ih (hm2mCmd_sep hs hc).1 (fun c' hc' => hns c' (by simp [hc'])) h
 
+
+/-! ## an instance updated from itself (`x.update(x)`, `x.update(x.inv)`) -/
+
+theorem unionSet_of_subset (a b : List α) (h : ∀ v ∈ b, v ∈ a) : unionSet a b = a := by
+  unfold unionSet
+  induction b generalizing a with
+  | nil => rfl
+  | cons v r ih =>
+    simp only [List.foldl_cons]
+    have hv : insertSet v a = a := by simp [insertSet, h v (by simp)]
+    rw [hv]
+    exact ih a (fun w hw => h w (List.mem_cons_of_mem _ hw))
+
+/-- `for k in d: d[k].update(d[k])`: no reference changes, no set object changes -/
+theorem hMergeAll_self (l : Dict α Nat) (h : Heap α) (d : Dict α Nat) (hl : ∀ e ∈ l, lookup e.1 d = some e.2) :
+    (hMergeAll l h d).2 = d ∧ (hMergeAll l h d).1.length = h.length ∧ ∀ j, cell (hMergeAll l h d).1 j = cell h j := by
+  induction l generalizing h with
+  | nil => exact ⟨rfl, rfl, fun _ => rfl⟩
+  | cons e r ih =>
+    have hk := hl e (by simp)
+    have e1 : hMergeAll (e :: r) h d = hMergeAll r (hMergeKey e.1 (cell h e.2) h d).1 (hMergeKey e.1 (cell h e.2) h d).2 := rfl
+    have e2 : hMergeKey e.1 (cell h e.2) h d = (h.set e.2 (cell h e.2), d) := by
+      simp [hMergeKey, hk, unionSet_of_subset _ _ (fun v hv => hv)]
+    rw [e1, e2]
+    obtain ⟨a, b, c⟩ := ih (h.set e.2 (cell h e.2)) (fun x hx => hl x (List.mem_cons_of_mem _ hx))
+    refine ⟨a, by simpa using b, fun j => ?_⟩
+    rw [c j, cell_set]
+    split
+    · next hj => rw [hj.1]
+    · rfl
+
+theorem self_lookup {β : Type} (d : Dict α β) (h : NodupKeys d) : ∀ e ∈ d, lookup e.1 d = some e.2 :=
+  fun e he => (mem_iff_lookup d h e.1 e.2).1 he
+
+theorem set_same {β : Type} {l : List β} {r : Nat} {x : β} (h : l[r]? = some x) : l.set r x = l := by
+  induction l generalizing r with
+  | nil => rfl
+  | cons y l ih =>
+    cases r with
+    | zero => simp at h; simp [h]
+    | succ n => simp at h; simp [ih h]
+
+theorem side_not_data (s : HInst α) (b : Bool) : (s.side (!b)).data = (s.side b).inv := by cases b <;> rfl
+theorem side_not_inv (s : HInst α) (b : Bool) : (s.side (!b)).inv = (s.side b).data := by cases b <;> rfl
+
+theorem nodupKeys_of_deref {h : Heap α} {d : Dict α Nat} (g : NodupKeys (deref h d)) : NodupKeys d := by
+  unfold NodupKeys at *; rwa [keys_deref] at g
+
+/-- `x.update(x)` (same side): nothing changes, neither a reference nor a set object -/
+theorem hUpdateFrom_self_same {st st' : HState α} (r : Nat) (side : Bool) (s : HInst α) (hsr : st.regs[r]? = some s)
+    (hw : (s.abs st.heap).WF) (h : hUpdateFrom st r side r side = some st') :
+    st'.regs = st.regs ∧ st'.heap.length = st.heap.length ∧ ∀ j, cell st'.heap j = cell st.heap j := by
+  have kd : NodupKeys (s.side side).data := by
+    cases side
+    · exact nodupKeys_of_deref hw.gd.nk
+    · exact nodupKeys_of_deref hw.gi.nk
+  have ki : NodupKeys (s.side side).inv := by
+    cases side
+    · exact nodupKeys_of_deref hw.gi.nk
+    · exact nodupKeys_of_deref hw.gd.nk
+  unfold hUpdateFrom at h
+  rw [hsr] at h
+  simp only [Option.bind_some] at h
+  obtain ⟨a1, b1, c1⟩ := hMergeAll_self (s.side side).data st.heap (s.side side).data (self_lookup _ kd)
+  have f1 : sided side (onBoth (hMergeAll (s.side side).data) dId) st.heap s
+      = ((hMergeAll (s.side side).data st.heap (s.side side).data).1, s) := by
+    simp only [sided, onBoth, dId, a1]
+    rw [show (⟨(s.side side).data, (s.side side).inv⟩ : HInst α) = s.side side from rfl, side_side]
+  have h1 : st.stepAt r (sided side (onBoth (hMergeAll (s.side side).data) dId))
+      = some ⟨(hMergeAll (s.side side).data st.heap (s.side side).data).1, st.regs⟩ := by
+    simp only [HState.stepAt, hsr, Option.map_some, f1, set_same hsr]
+  rw [h1] at h
+  simp only [Option.bind_some, hsr] at h
+  obtain ⟨a2, b2, c2⟩ := hMergeAll_self (s.side side).inv (hMergeAll (s.side side).data st.heap (s.side side).data).1
+    (s.side side).inv (self_lookup _ ki)
+  have f2 : sided side (onBoth dId (hMergeAll (s.side side).inv)) (hMergeAll (s.side side).data st.heap (s.side side).data).1 s
+      = ((hMergeAll (s.side side).inv (hMergeAll (s.side side).data st.heap (s.side side).data).1 (s.side side).inv).1, s) := by
+    simp only [sided, onBoth, dId, a2]
+    rw [show (⟨(s.side side).data, (s.side side).inv⟩ : HInst α) = s.side side from rfl, side_side]
+  simp only [HState.stepAt, hsr, Option.map_some, f2, set_same hsr, Option.some.injEq] at h
+  subst h
+  exact ⟨rfl, by simp only; rw [b2, b1], fun j => by simp only; rw [c2 j, c1 j]⟩
+
+/-- by value, what `x.update(x.inv)` makes of `x`: loop 2 merges the ALREADY merged forward dict into the inverse -/
+def selfMerge (A : M2M α) : M2M α :=
+  ⟨A.inv.foldl (fun d p => mergeKey p.1 p.2 d) A.data,
+   (A.inv.foldl (fun d p => mergeKey p.1 p.2 d) A.data).foldl (fun d p => mergeKey p.1 p.2 d) A.inv⟩
+
+theorem selfMerge_wf {A : M2M α} (w : A.WF) : (selfMerge A).WF := by
+  have g1 : GoodDict (A.inv.foldl (fun d p => mergeKey p.1 p.2 d) A.data) := foldMerge_good w.gd _ w.gi.ne_of_mem
+  refine ⟨g1, foldMerge_good w.gi _ g1.ne_of_mem, ?_⟩
+  intro a b
+  show b ∈ getSet a (List.foldl _ A.data A.inv) ↔ a ∈ getSet b (List.foldl _ A.inv (List.foldl _ A.data A.inv))
+  rw [foldMerge_mem, foldMerge_mem, g1.exists_iff, w.gi.exists_iff, foldMerge_mem, w.gi.exists_iff]
+  have t1 := w.transpose a b
+  have t2 := w.transpose b a
+  constructor
+  · rintro (h | h)
+    · exact Or.inl (t1.1 h)
+    · exact Or.inr (Or.inl (t2.2 h))
+  · rintro (h | h | h)
+    · exact Or.inl (t1.2 h)
+    · exact Or.inr (t2.1 h)
+    · exact Or.inl (t1.2 h)
+
+/-- `x.update(x.inv)` (and `x.inv.update(x)`): by value, register `r` becomes `selfMerge` of what it held -/
+theorem hUpdateFrom_self_opp {st st' : HState α} (hs : HSep st) (r : Nat) (side : Bool)
+    (h : hUpdateFrom st r side r (!side) = some st') :
+    ∃ s, st.regs[r]? = some s ∧ st'.abs = st.abs.set r ((selfMerge ((s.abs st.heap).side side)).side side) := by
+  unfold hUpdateFrom at h
+  cases ho : st.regs[r]? with
+  | none => rw [ho] at h; simp at h
+  | some s =>
+    rw [ho] at h
+    simp only [Option.bind_some, side_not_data] at h
+    obtain ⟨gn, gr⟩ := hs.good r s ho
+    have gn' := (nodup_idsI_side s side).2 gn
+    have gr' : ∀ j ∈ idsI (s.side side), j < st.heap.length := fun j hj => gr j ((mem_idsI_side s side j).1 hj)
+    have dj : ∀ j ∈ ids (s.side side).inv, j ∉ ids (s.side side).data := by
+      intro j hj hm
+      unfold idsI at gn'
+      rw [List.nodup_append] at gn'
+      exact gn'.2.2 j hm j hj rfl
+    cases h1 : st.stepAt r (sided side (onBoth (hMergeAll (s.side side).inv) dId)) with
+    | none => rw [h1] at h; simp at h
+    | some st1 =>
+      rw [h1] at h
+      simp only [Option.bind_some] at h
+      obtain ⟨sep1, len1, _, fr1⟩ := stepAt_sep hs r _ (fun s _ => mergeData_foot _ side st.heap s) h1
+      have sim1 : ∀ s', st.regs[r]? = some s' → ISimAt (sided side (onBoth (hMergeAll (s.side side).inv) dId))
+          (fun m => (⟨(deref st.heap (s.side side).inv).foldl (fun D p => mergeKey p.1 p.2 D) (m.side side).data,
+            (m.side side).inv⟩ : M2M α).side side) st.heap s' := by
+        intro s' hs'
+        rw [ho] at hs'
+        injection hs' with hs'
+        subst hs'
+        refine sided_sim side (G := fun m => (⟨(deref st.heap (s.side side).inv).foldl
+          (fun D p => mergeKey p.1 p.2 D) m.data, m.inv⟩ : M2M α)) ?_
+        refine onBoth_sim (gf := fun D => (deref st.heap (s.side side).inv).foldl (fun D p => mergeKey p.1 p.2 D) D)
+          (gg := fun D => D) (hMergeAll_foot _ _ _) (dId_foot _ _) ?_ ?_
+        · intro hn hr
+          exact hMergeAll_sim _ _ _ hn hr (fun j hj => gr' j ((mem_idsI _ j).2 (Or.inr hj))) dj
+        · intro _ _; rfl
+      obtain ⟨s0, hsr, hs1r, _, habs1⟩ := stepAt_abs hs r _ _ (fun s _ => mergeData_foot _ side st.heap s) sim1 h1
+      rw [ho] at hsr
+      injection hsr with hsr
+      subst hsr
+      rw [hs1r] at h
+      simp only [Option.bind_some, side_not_inv] at h
+      -- the instance after loop 1
+      have hd1 : ((sided side (onBoth (hMergeAll (s.side side).inv) dId) st.heap s).2.side side).data
+          = (hMergeAll (s.side side).inv st.heap (s.side side).data).2 := by
+        simp only [sided, onBoth, dId, side_side]
+      have hi1 : ((sided side (onBoth (hMergeAll (s.side side).inv) dId) st.heap s).2.side side).inv
+          = (s.side side).inv := by
+        simp only [sided, onBoth, dId, side_side]
+      obtain ⟨gn1, gr1⟩ := sep1.good r _ hs1r
+      have gn1' := (nodup_idsI_side _ side).2 gn1
+      have sim2 : ∀ s1, st1.regs[r]? = some s1 →
+          ISimAt (sided side (onBoth dId (hMergeAll ((sided side (onBoth (hMergeAll (s.side side).inv) dId) st.heap s).2.side side).data)))
+          (fun m => (⟨(m.side side).data,
+            (deref st1.heap ((sided side (onBoth (hMergeAll (s.side side).inv) dId) st.heap s).2.side side).data).foldl
+              (fun D p => mergeKey p.1 p.2 D) (m.side side).inv⟩ : M2M α).side side) st1.heap s1 := by
+        intro s1 hs1
+        rw [hs1r] at hs1
+        injection hs1 with hs1
+        subst hs1
+        refine sided_sim side (G := fun m => (⟨m.data,
+          (deref st1.heap ((sided side (onBoth (hMergeAll (s.side side).inv) dId) st.heap s).2.side side).data).foldl
+            (fun D p => mergeKey p.1 p.2 D) m.inv⟩ : M2M α)) ?_
+        refine onBoth_sim (gf := fun D => D)
+          (gg := fun D => (deref st1.heap ((sided side (onBoth (hMergeAll (s.side side).inv) dId) st.heap s).2.side side).data).foldl
+            (fun D p => mergeKey p.1 p.2 D) D) (dId_foot _ _) (hMergeAll_foot _ _ _) ?_ ?_
+        · intro _ _; rfl
+        · intro hn hr
+          apply hMergeAll_sim _ _ _ hn hr
+          · intro j hj
+            exact gr1 j ((mem_idsI_side _ side j).1 ((mem_idsI _ j).2 (Or.inl hj)))
+          · intro j hj hm
+            unfold idsI at gn1'
+            rw [List.nodup_append] at gn1'
+            exact gn1'.2.2 j hj j hm rfl
+      obtain ⟨s1, hs1r', _, _, habs2⟩ := stepAt_abs sep1 r _ _ (fun s _ => mergeInv_foot _ side st1.heap s) sim2 h
+      rw [hs1r] at hs1r'
+      injection hs1r' with hs1r'
+      refine ⟨s, rfl, ?_⟩
+      rw [habs2, habs1, List.set_set]
+      congr 1
+      have hlt : r < st.abs.length := by
+        have := getElem?_lt ho
+        simpa [HState.abs] using this
+      have e1 : s1.abs st1.heap = (⟨(deref st.heap (s.side side).inv).foldl (fun D p => mergeKey p.1 p.2 D)
+          ((s.abs st.heap).side side).data, ((s.abs st.heap).side side).inv⟩ : M2M α).side side := by
+        have := congrArg (fun l => l[r]?) habs1
+        simp only [abs_getElem?, hs1r, Option.map_some] at this
+        rw [List.getElem?_set] at this
+        simp only [if_true, hlt] at this
+        injection this with this
+        rw [← hs1r']; exact this
+      have e2 : deref st1.heap ((sided side (onBoth (hMergeAll (s.side side).inv) dId) st.heap s).2.side side).data
+          = ((s1.abs st1.heap).side side).data := by
+        rw [← abs_side, ← hs1r']; rfl
+      rw [e2, e1, m2m_side_side]
+      show _ = (selfMerge ((s.abs st.heap).side side)).side side
+      unfold selfMerge
+      rw [← abs_side st.heap s side]
+      rfl
+
+/-- every command keeps the by-value invariant (same pairs transposed, no empty entry) of every heap-level instance -
+    self-updates included -/
+theorem hm2mCmd_wf {st st' : HState α} {c : M2MCmd α} {ret : Ret α} (hs : HSep st) (hw : AllWFm st.abs)
+    (h : hm2mCmd st c = some (st', ret)) : AllWFm st'.abs := by
+  by_cases hns : c.NoSelfUpdate
+  · exact m2mCmd_wf hw (hm2mCmd_sim hs hns h)
+  · cases c with
+    | new ps => exact absurd trivial hns
+    | newFrom r side => exact absurd trivial hns
+    | op r side op => exact absurd trivial hns
+    | updateFrom r side r2 side2 =>
+      have e : r = r2 := by
+        simp only [M2MCmd.NoSelfUpdate, ne_eq, Decidable.not_not] at hns; exact hns
+      subst e
+      simp only [hm2mCmd, Option.map_eq_some_iff, Prod.mk.injEq] at h
+      obtain ⟨st1, h1, e1, _⟩ := h
+      subst e1
+      by_cases es : side2 = side
+      · subst es
+        cases hsr : st.regs[r]? with
+        | none => simp [hUpdateFrom, hsr] at h1
+        | some s =>
+          have hws : (s.abs st.heap).WF := hw _ (by
+            have := abs_getElem? st r
+            rw [hsr] at this
+            exact List.mem_of_getElem? this)
+          obtain ⟨a, _, c⟩ := hUpdateFrom_self_same r side2 s hsr hws h1
+          have : st1.abs = st.abs := by
+            unfold HState.abs
+            rw [a]
+            apply List.map_congr_left
+            intro x _
+            exact abs_congr _ _ _ (fun j _ => c j)
+          rw [this]; exact hw
+      · have : side2 = !side := by cases side <;> cases side2 <;> simp_all
+        subst this
+        obtain ⟨s, hsr, habs⟩ := hUpdateFrom_self_opp hs r side h1
+        rw [habs]
+        have hws : (s.abs st.heap).WF := hw _ (by
+          have := abs_getElem? st r
+          rw [hsr] at this
+          exact List.mem_of_getElem? this)
+        exact hw.set r ((selfMerge_wf (hws.side side)).side side)
+
+theorem hm2mRun_wf {st st' : HState α} (cs : List (M2MCmd α)) (hs : HSep st) (hw : AllWFm st.abs)
+    (h : hm2mRun st cs = some st') : AllWFm st'.abs := by
+  induction cs generalizing st with
+  | nil => simp only [hm2mRun, Option.some.injEq] at h; subst h; exact hw
+  | cons c cs ih =>
+    simp only [hm2mRun] at h
+    cases hc : hm2mCmd st c with
+    | none => rw [hc] at h; simp at h
+    | some p =>
+      obtain ⟨st1, ret⟩ := p
+      rw [hc] at h
+      exact ih (hm2mCmd_sep hs hc).1 (hm2mCmd_wf hs hw hc) h
+
 end steps
 end C17
